@@ -103,11 +103,12 @@ PctDecode(s) == PctDecFrom(s, 1)
 RECURSIVE SchemeEnd(_, _)
 SchemeEnd(u, i) == IF i > Len(u) THEN 0
                    ELSE IF u[i] = 58 THEN i
-                   ELSE IF IsAlnum(u[i]) \/ u[i] \in {43, 45, 46} THEN SchemeEnd(u, i + 1) ELSE 0
+                   ELSE IF IsAlnum(u[i]) \/ u[i] = 43 \/ u[i] = 45 \/ u[i] = 46 THEN SchemeEnd(u, i + 1) ELSE 0
 HasScheme(u) == Len(u) >= 2 /\ IsAlpha(u[1]) /\ SchemeEnd(u, 2) # 0
 
 \* the alphabet the reference handles in a destination (anything else: ref_undefined, never failed)
-DestByteOk(c) == IsAlnum(c) \/ c \in {47, 46, 45, 95, 35, 63, 61, 58, 64, 40, 41}
+DestPunct == {47, 46, 45, 95, 35, 63, 61, 58, 64, 40, 41}      \* / . - _ # ? = : @ ( )   (sets are named constants: TLC builds them once)
+DestByteOk(c) == IsAlnum(c) \/ c \in DestPunct
 DestDefined(u) == \A k \in 1..Len(u) : DestByteOk(u[k])
 
 \* class of an (unescaped) destination:
@@ -281,7 +282,8 @@ OpenBefore(kinds, i) == IF i < 1 THEN "-" ELSE IF KindOpen(kinds[i]) THEN kinds[
 (* ============================ IMPLEMENTATION-SHAPED: mdescape.go =============================== *)
 
 \* isMarkdownEscapable
-ImplEscapable(c) == c \in {92, 96, 42, 95, 123, 125, 91, 93, 40, 41, 35, 43, 45, 61, 46, 33, 124, 60, 62, 126, 38}
+ImplEscapableSet == {92, 96, 42, 95, 123, 125, 91, 93, 40, 41, 35, 43, 45, 61, 46, 33, 124, 60, 62, 126, 38}
+ImplEscapable(c) == c \in ImplEscapableSet
 
 \* markdownURLEscape: every backslash that is last or precedes an escapable byte is doubled
 RECURSIVE ImplEscFrom(_, _)
@@ -303,7 +305,8 @@ ImplUnescape(s) == ImplUnescFrom(s, 1)
 (* ============================ IMPLEMENTATION-SHAPED: linkdestination.go ======================== *)
 
 At(l, i) == l[i + 1]                         \* line[i], 0-based
-GmSpace(c) == c \in {32, 9, 10, 11, 12, 13}  \* goldmark util.IsSpace
+GmSpaceSet == {32, 9, 10, 11, 12, 13}
+GmSpace(c) == c \in GmSpaceSet               \* goldmark util.IsSpace
 
 RECURSIVE CountRun(_, _, _)
 CountRun(l, pos, c) == IF pos < Len(l) /\ At(l, pos) = c THEN 1 + CountRun(l, pos + 1, c) ELSE 0
@@ -318,6 +321,7 @@ IndentFrom(l, i, w) == IF i < Len(l) /\ At(l, i) = 32 THEN IndentFrom(l, i + 1, 
 IndentWidth(l) == IndentFrom(l, 0, 0)
 Escaped(l, i) == At(l, i) = 92 /\ i + 1 < Len(l) /\ IsPunct(At(l, i + 1))   \* c == '\\' && i+1 < len && IsPunct
 
+TitleOpeners == {34, 39, 40}               \* " ' (
 NoDest == [ok |-> FALSE, start |-> 0, stop |-> 0, after |-> 0]
 \* parseDestination
 RECURSIVE AngleDest(_, _, _)
@@ -355,7 +359,7 @@ ParseTitleAndClose(l, pos0) ==
   LET pos == SkipSpaces(l, pos0) IN
   IF pos >= Len(l) THEN -1
   ELSE IF At(l, pos) = 41 THEN pos + 1
-  ELSE IF At(l, pos) \notin {34, 39, 40} THEN -1
+  ELSE IF At(l, pos) \notin TitleOpeners THEN -1
   ELSE LET t == ParseTitle(l, pos) IN
        IF t = -1 THEN -1
        ELSE LET e == SkipSpaces(l, t) IN IF e < Len(l) /\ At(l, e) = 41 THEN e + 1 ELSE -1
@@ -394,7 +398,7 @@ ParseReferenceDefinition(l) ==
                      spaces == after - d.after
                      yes == [ok |-> TRUE, start |-> d.start, stop |-> d.stop] IN
                  IF after >= Len(l) THEN yes
-                 ELSE IF At(l, after) \notin {34, 39, 40} THEN (IF IsBlankFrom(l, after) THEN yes ELSE NoRef)
+                 ELSE IF At(l, after) \notin TitleOpeners THEN (IF IsBlankFrom(l, after) THEN yes ELSE NoRef)
                  ELSE IF spaces = 0 THEN NoRef
                  ELSE LET e == ParseTitle(l, after) IN
                       IF e = -1 \/ ~IsBlankFrom(l, e) THEN NoRef ELSE yes
@@ -469,11 +473,12 @@ PathJoin(elems) == LET ne == NonEmpty(elems) IN IF ne = <<>> THEN <<>> ELSE Clea
 RECURSIVE ExtStart(_, _)
 ExtStart(p, i) == IF i < 1 \/ p[i] = 47 THEN 0 ELSE IF p[i] = 46 THEN i ELSE ExtStart(p, i - 1)
 \* escape(path, encodePath) of net/url for the bytes that can occur here
+PathSafe == {45, 95, 46, 126, 36, 38, 43, 44, 47, 58, 59, 61, 64}     \* - _ . ~ $ & + , / : ; = @
 HexDigit(v) == IF v < 10 THEN 48 + v ELSE 55 + v           \* upper case, as net/url
 RECURSIVE EscPathFrom(_, _)
 EscPathFrom(p, i) ==
   IF i > Len(p) THEN <<>>
-  ELSE (IF IsAlnum(p[i]) \/ p[i] \in {45, 95, 46, 126, 36, 38, 43, 44, 47, 58, 59, 61, 64} THEN <<p[i]>>
+  ELSE (IF IsAlnum(p[i]) \/ p[i] \in PathSafe THEN <<p[i]>>
         ELSE <<37, HexDigit(p[i] \div 16), HexDigit(p[i] % 16)>>) \o EscPathFrom(p, i + 1)
 NoRepl == [ok |-> FALSE, repl |-> <<>>]
 ImplRewrite(d, cfg) ==
